@@ -205,3 +205,48 @@ M('C02-twin-not-data', 'C02', BASIC,
   "        if len(data) < length:\n            raise EOFError(\"Unexpected end of message.\")",
   "        if len(data) != length:\n            raise EOFError(\"Unexpected end of message.\")",
   expect='silent')
+
+# ---------------------------------------------------------------- C03
+M('C03-max-bytes-50', 'C03', BASIC, "class VarInt(Type):\n    max_bytes = 5",
+  "class VarInt(Type):\n    max_bytes = 50", rule='R03.1')
+M('C03-varlong-max-bytes-5', 'C03', BASIC, "class VarLong(VarInt):\n    max_bytes = 10",
+  "class VarLong(VarInt):\n    max_bytes = 5", rule='R03.1')
+M('C03-counter-increment-removed', 'C03', BASIC,
+  "            bytes_encountered += 1\n            if bytes_encountered > cls.max_bytes:",
+  "            if bytes_encountered > cls.max_bytes:", rule='R03.1')
+M('C03-guard-removed', 'C03', BASIC,
+  "            if bytes_encountered > cls.max_bytes:\n                raise ValueError(\"Tried to read too long of a VarInt\")\n",
+  "", rule='R03.1')
+M('C03-extra-read-after-break', 'C03', BASIC,
+  "                raise ValueError(\"Tried to read too long of a VarInt\")\n        return number",
+  "                raise ValueError(\"Tried to read too long of a VarInt\")\n        file_object.read(1)\n        return number",
+  rule='R03.2')
+M('C03-read-two-bytes', 'C03', BASIC, "            byte = file_object.read(1)\n            if len(byte) < 1:",
+  "            byte = file_object.read(2)\n            if len(byte) < 1:", rule='R03.1')
+M('C03-eof-test-removed', 'C03', BASIC,
+  "            if len(byte) < 1:\n                raise EOFError(\"Unexpected end of message.\")\n\n            byte = ord(byte)",
+  "            byte = ord(byte or b'\\x00')", rule='R03.1')
+M('C03-send-mask-ff', 'C03', BASIC, "            byte = value & 0x7F\n", "            byte = value & 0xFF\n",
+  rule='R03.5')
+M('C03-read-shift-8', 'C03', BASIC, "number |= (byte & 0x7F) << 7 * bytes_encountered",
+  "number |= (byte & 0x7F) << 8 * bytes_encountered", rule='R03.5')
+M('C03-break-on-set-bit', 'C03', BASIC, "            if not byte & 0x80:\n                break",
+  "            if byte & 0x80:\n                break", rule='R03.1')
+M('C03-size-table-entry', 'C03', BASIC, "    2 ** 21: 3,", "    2 ** 21: 4,", rule='R03.5')
+M('C03-size-table-order', 'C03', BASIC, "    2 ** 7: 1,\n    2 ** 14: 2,", "    2 ** 14: 2,\n    2 ** 7: 1,",
+  rule='R03.5')
+M('C03-size-le', 'C03', BASIC, "            if value < max_value:", "            if value <= max_value:",
+  rule='R03.5')
+M('C03-rebreak-D4', 'C03', BASIC,
+  "        if value < 0:\n            raise ValueError(\"Cannot encode a negative number as a VarInt\")\n",
+  "", rule='R03.4')
+M('C03-send-flag-ge', 'C03', BASIC, "byte | (0x80 if value > 0 else 0)", "byte | (0x80 if value >= 0 else 0)",
+  rule='R03.5')
+M('C03-twin-counter-renamed', 'C03', BASIC, "bytes_encountered", "count", expect='silent', count=4)
+M('C03-twin-guard-before-increment', 'C03', BASIC,
+  "            bytes_encountered += 1\n            if bytes_encountered > cls.max_bytes:\n                raise ValueError(\"Tried to read too long of a VarInt\")",
+  "            if bytes_encountered >= cls.max_bytes:\n                raise ValueError(\"Tried to read too long of a VarInt\")\n            bytes_encountered += 1",
+  expect='silent')
+M('C03-twin-mask-negative', 'C03', BASIC,
+  "        if value < 0:\n            raise ValueError(\"Cannot encode a negative number as a VarInt\")\n",
+  "        value &= 0xFFFFFFFFFFFFFFFF\n", expect='silent')
